@@ -458,7 +458,16 @@ func registerIntercepts(g *Engine) {
 		me := e.curThread
 		e.blockUntil(func() bool {
 			for _, t := range e.threads {
-				if t != me && (t.status == tRunnable || (t.status == tBlocked && t.ready != nil && t.ready())) {
+				if t == me {
+					continue
+				}
+				// a thread that itself waits for everybody else (the census of
+				// the main thread, another late event) does not keep this one
+				// waiting: the late event goes first, the census after it
+				if t.status == tBlocked && (t.what == "verifQuiesce" || t.what == "verifLetOthersRun") {
+					continue
+				}
+				if t.status == tRunnable || (t.status == tBlocked && t.ready != nil && t.ready()) {
 					return false
 				}
 			}
@@ -472,15 +481,22 @@ func registerIntercepts(g *Engine) {
 		}
 		me := e.curThread
 		quiet := func() bool {
+			late := false
 			for _, t := range e.threads {
 				if t == me {
+					continue
+				}
+				if t.status == tBlocked && t.what == "verifLetOthersRun" {
+					// a late event of the harness: it happens once the rest is
+					// quiet, and before the census
+					late = true
 					continue
 				}
 				if t.status == tRunnable || (t.status == tBlocked && t.ready != nil && t.ready()) {
 					return false
 				}
 			}
-			return true
+			return !late
 		}
 		e.blockUntil(quiet, "verifQuiesce")
 		n := 0
